@@ -23,9 +23,9 @@ Definition par_col (nm : name_map) : Z := single_col nm k_parent.
    - id and parent_id are mapped to single columns, time is mapped,
    - pos is a list of >= 2 columns; ellipse_axis_radii, if mapped, is a list of the same length,
    - no empty list mapping, every mapped column exists. *)
-Definition wf_map (cols : list Z) (nm : name_map) : bool :=
+Definition wf_map_core (cols : list Z) (nm : name_map) : bool :=
   nodup_z (keys nm ++ multi_cols nm)
-  && is_single (lookup k_id nm) && is_single (lookup k_parent nm) && haskey k_time nm
+  && haskey k_time nm
   && match lookup k_pos nm with
      | Some (Multi pcs) => (2 <=? length pcs)%nat
                            && match lookup k_ell nm with
@@ -37,6 +37,9 @@ Definition wf_map (cols : list Z) (nm : name_map) : bool :=
      end
   && forallb nonempty_src nm
   && forallb (fun kv => forallb (fun c => memz c cols) (sources (snd kv))) nm.
+(* CSV: additionally id and parent_id are mapped to single columns *)
+Definition wf_map (cols : list Z) (nm : name_map) : bool :=
+  wf_map_core cols nm && is_single (lookup k_id nm) && is_single (lookup k_parent nm).
 
 (* "no parent": empty cell or -1 *)
 Definition is_none (p : cell) : bool := match p with CNone => true | CInt z => z =? -1 | _ => false end.
@@ -246,6 +249,26 @@ Proof. intros H1 H2. unfold preprocess, legacy_pos. rewrite H1. now apply filter
 Lemma is_single_inv nm k : is_single (lookup k nm) = true -> lookup k nm = Some (Single (single_col nm k)).
 Proof. unfold single_col. destruct (lookup k nm) as [[c|cs]|]; cbn; congruence. Qed.
 
+Lemma wf_map_core_inv cols nm : wf_map_core cols nm = true ->
+  NoDup (keys nm ++ multi_cols nm) /\
+  haskey k_time nm = true /\
+  (exists pcs, lookup k_pos nm = Some (Multi pcs) /\ (2 <= length pcs)%nat /\
+               forall s, lookup k_ell nm = Some s -> exists cs, s = Multi cs /\ length cs = length pcs) /\
+  forallb nonempty_src nm = true /\
+  (forall k s c, In (k, s) nm -> In c (sources s) -> In c cols).
+Proof.
+  unfold wf_map_core. rewrite !andb_true_iff. intros [[[[H1 H4] H5] H6] H7].
+  split; [now apply nodup_z_NoDup|]. split; [exact H4|]. split.
+  - destruct (lookup k_pos nm) as [[c|pcs]|]; try discriminate. apply andb_true_iff in H5. destruct H5 as [Ha Hb].
+    exists pcs. split; [reflexivity|]. split; [now apply Nat.leb_le|]. intros s Hs. rewrite Hs in Hb.
+    destruct s as [c|cs]; [discriminate|]. exists cs. split; [reflexivity|now apply Nat.eqb_eq].
+  - split; [exact H6|]. intros k s c Hin Hc. rewrite forallb_forall in H7. specialize (H7 _ Hin). cbn [snd] in H7.
+    rewrite forallb_forall in H7. apply memz_In. now apply H7.
+Qed.
+
+Lemma wf_map_is_core cols nm : wf_map cols nm = true -> wf_map_core cols nm = true.
+Proof. unfold wf_map. rewrite !andb_true_iff. tauto. Qed.
+
 Lemma wf_map_inv cols nm : wf_map cols nm = true ->
   NoDup (keys nm ++ multi_cols nm) /\
   lookup k_id nm = Some (Single (id_col nm)) /\ lookup k_parent nm = Some (Single (par_col nm)) /\
@@ -255,27 +278,21 @@ Lemma wf_map_inv cols nm : wf_map cols nm = true ->
   forallb nonempty_src nm = true /\
   (forall k s c, In (k, s) nm -> In c (sources s) -> In c cols).
 Proof.
-  unfold wf_map. rewrite !andb_true_iff. intros [[[[[[H1 H2] H3] H4] H5] H6] H7].
-  split; [now apply nodup_z_NoDup|]. split; [now apply is_single_inv|]. split; [now apply is_single_inv|].
-  split; [exact H4|]. split.
-  - destruct (lookup k_pos nm) as [[c|pcs]|]; try discriminate. apply andb_true_iff in H5. destruct H5 as [Ha Hb].
-    exists pcs. split; [reflexivity|]. split; [now apply Nat.leb_le|]. intros s Hs. rewrite Hs in Hb.
-    destruct s as [c|cs]; [discriminate|]. exists cs. split; [reflexivity|now apply Nat.eqb_eq].
-  - split; [exact H6|]. intros k s c Hin Hc. rewrite forallb_forall in H7. specialize (H7 _ Hin). cbn in H7.
-    rewrite forallb_forall in H7. apply memz_In. now apply H7.
+  intros H. pose proof (wf_map_core_inv _ _ (wf_map_is_core _ _ H)) as [H1 [H2 [H3 [H4 H5]]]].
+  unfold wf_map in H. rewrite !andb_true_iff in H. destruct H as [[_ Hi] Hp].
+  repeat split; try assumption; now apply is_single_inv.
 Qed.
 
 Lemma memz_sd k : memz k sd_keys = (k =? k_pos) || (k =? k_ell).
 Proof. unfold memz, sd_keys. cbn. now rewrite orb_false_r. Qed.
 
-Lemma wf_map_validate cols nm req : wf_map cols nm = true -> (forall k, In k req -> In k [k_time; k_id; k_parent]) ->
+Lemma wf_core_validate cols nm req : wf_map_core cols nm = true -> (forall k, In k req -> haskey k nm = true) ->
   validate_name_map req cols (ndim_of_map nm) nm = true.
 Proof.
-  intros Hwf Hreq. destruct (wf_map_inv _ _ Hwf) as [Hnd [Hid [Hpar [Htime [[pcs [Hpos [Hlen Hell]]] [Hne Hsrc]]]]]].
+  intros Hwf Hreq. destruct (wf_map_core_inv _ _ Hwf) as [Hnd [Htime [[pcs [Hpos [Hlen Hell]]] [Hne Hsrc]]]].
   destruct (clean_facts _ Hnd) as [Hk _].
   unfold validate_name_map. rewrite !andb_true_iff. repeat split.
-  - unfold required_ok. apply forallb_forall. intros k Hk'. apply Hreq in Hk'. cbn in Hk'.
-    destruct Hk' as [<-|[<-|[<-|[]]]]; [exact Htime| |]; unfold haskey; [rewrite Hid|rewrite Hpar]; reflexivity.
+  - unfold required_ok. apply forallb_forall. exact Hreq.
   - unfold pos_ok. rewrite Hpos. now apply Nat.leb_le.
   - unfold sources_ok. destruct cols as [|c0 cols]; [reflexivity|]. apply forallb_forall. intros [k s] Hin. cbn [snd].
     apply forallb_forall. intros c Hc. apply memz_In. eapply Hsrc; eauto.
@@ -285,6 +302,14 @@ Proof.
     + rewrite (In_lookup _ _ _ Hk Hin) in Hpos. injection Hpos as ->. apply Nat.eqb_refl.
     + destruct (Z.eqb_spec k k_ell) as [->|Hn2]; cbn [negb]; [|reflexivity].
       destruct (Hell s (In_lookup _ _ _ Hk Hin)) as [cs [-> Hl]]. now apply Nat.eqb_eq.
+Qed.
+
+Lemma wf_map_validate cols nm req : wf_map cols nm = true -> (forall k, In k req -> In k [k_time; k_id; k_parent]) ->
+  validate_name_map req cols (ndim_of_map nm) nm = true.
+Proof.
+  intros Hwf Hreq. destruct (wf_map_inv _ _ Hwf) as [_ [Hid [Hpar [Htime _]]]].
+  apply wf_core_validate; [now apply wf_map_is_core|]. intros k Hk'. apply Hreq in Hk'. cbn in Hk'.
+  destruct Hk' as [<-|[<-|[<-|[]]]]; [exact Htime| |]; unfold haskey; [rewrite Hid|rewrite Hpar]; reflexivity.
 Qed.
 
 (* ================= Part 3: the renaming loop ================= *)
@@ -1087,16 +1112,16 @@ Proof.
 Qed.
 
 (* (3d, 3e) malformed name maps: generic in the required keys and the available columns *)
-Lemma legacy_step_None k st c : lookup k (fst st) = None -> lookup k (fst (legacy_step st c)) = None.
+Lemma legacy_step_None k (st : name_map * list Z) c : lookup k (fst st) = None -> lookup k (fst (legacy_step st c)) = None.
 Proof.
   intros H. unfold legacy_step. destruct (lookup c (fst st)) as [[c'|cs]|] eqn:E; cbn [fst]; [| |exact H];
     (destruct (Z.eq_dec k c) as [->|Hn]; [apply lookup_del_eq|now rewrite lookup_del_neq]).
 Qed.
-Lemma legacy_fold_None k l : forall st, lookup k (fst st) = None -> lookup k (fst (fold_left legacy_step l st)) = None.
+Lemma legacy_fold_None k l : forall st : name_map * list Z, lookup k (fst st) = None -> lookup k (fst (fold_left legacy_step l st)) = None.
 Proof.
   induction l as [|c l IH]; intros st H; [exact H|]. cbn [fold_left]. apply IH. now apply legacy_step_None.
 Qed.
-Lemma lookup_preprocess_None k nm : k <> k_pos -> lookup k nm = None -> lookup k (preprocess nm) = None.
+Lemma lookup_preprocess_None k (nm : name_map) : k <> k_pos -> lookup k nm = None -> lookup k (preprocess nm) = None.
 Proof.
   intros Hk H. unfold preprocess. apply lookup_filter_None. unfold legacy_pos. destruct (haskey k_pos nm); [exact H|].
   set (st := fold_left legacy_step [k_z; k_y; k_x] (nm, [])).
@@ -1104,14 +1129,14 @@ Proof.
   destruct (2 <=? length (snd st))%nat; [|exact E]. now rewrite lookup_set_neq.
 Qed.
 
-Lemma validate_required_missing req cols nd nm k : In k req -> k <> k_pos -> lookup k nm = None ->
+Lemma validate_required_missing req cols nd (nm : name_map) k : In k req -> k <> k_pos -> lookup k nm = None ->
   validate_name_map req cols nd (preprocess nm) = false.
 Proof.
   intros Hin Hk H. unfold validate_name_map. assert (E : required_ok req (preprocess nm) = false).
   { unfold required_ok. eapply forallb_false_intro; [exact Hin|]. unfold haskey. now rewrite lookup_preprocess_None. }
   now rewrite E.
 Qed.
-Lemma validate_pos_missing req cols nd nm :
+Lemma validate_pos_missing req cols nd (nm : name_map) :
   lookup k_pos nm = None -> lookup k_z nm = None -> lookup k_y nm = None -> lookup k_x nm = None ->
   validate_name_map req cols nd (preprocess nm) = false.
 Proof.
@@ -1121,7 +1146,7 @@ Proof.
     now rewrite (lookup_filter_None _ _ _ Hp). }
   rewrite E. now rewrite andb_false_r.
 Qed.
-Lemma validate_missing_column req cols nd nm k s c : haskey k_pos nm = true -> In (k, s) nm -> In c (sources s) ->
+Lemma validate_missing_column req cols nd (nm : name_map) k s c : haskey k_pos nm = true -> In (k, s) nm -> In c (sources s) ->
   cols <> [] -> ~ In c cols -> validate_name_map req cols nd (preprocess nm) = false.
 Proof.
   intros Hp Hin Hc Hcols Hni. unfold validate_name_map. assert (E : sources_ok cols (preprocess nm) = false).
@@ -1151,3 +1176,298 @@ Theorem csv_reject_missing_column : forall t ityp trk lin nm k s c,
   haskey k_pos nm = true -> In (k, s) nm -> In c (sources s) -> t_cols t <> [] -> ~ In c (t_cols t) ->
   import_csv t ityp trk lin nm = ValueErr.
 Proof. intros. apply import_csv_invalid_map. eapply validate_missing_column; eauto. Qed.
+
+(* ================= Part 8: the GEFF theorems ================= *)
+Definition geff_props (store : props) (nm : name_map) : props := combine_multi nm (renamed store nm).
+(* every column of a list mapping is a 1-D property of the store *)
+Definition multi_1d (store : props) (nm : name_map) : Prop :=
+  forall c, In c (multi_cols nm) -> exists v m, lookup c store = Some {| p_vals := PS v; p_miss := m |}.
+
+Lemma import_geff_wf_map ids es store trk lin nm : wf_map_core (keys store) nm = true ->
+  exists pcs, lookup k_pos nm = Some (Multi pcs) /\
+    import_geff ids es store trk lin nm = finish (Some (S (length pcs))) trk lin ids es (geff_props store nm).
+Proof.
+  intros Hwf. pose proof (wf_map_core_inv _ _ Hwf) as [Hnd [Htime [[pcs [Hpos [Hlen Hell]]] [Hne Hsrc]]]].
+  destruct (clean_facts _ Hnd) as [Hk [Ht [Hmk Hkm]]].
+  exists pcs. split; [exact Hpos|].
+  unfold import_geff. destruct nm as [|kv0 nm'] eqn:Enm; [discriminate|]. rewrite <- Enm in *. clear Enm kv0 nm'.
+  unfold import_geff_body.
+  assert (Hhp : haskey k_pos nm = true) by (unfold haskey; now rewrite Hpos).
+  rewrite (preprocess_id nm Hhp Hne).
+  rewrite (wf_core_validate _ _ geff_required Hwf) by (intros k [<-|[]]; exact Htime). cbn [negb].
+  rewrite rename_clean; [|exact Ht|].
+  2:{ intros ts Hts. destruct (in_flatten_source _ _ Hts) as [k [s [Hin Hs]]]. eapply Hsrc; eauto. }
+  rewrite Hpos. unfold ndim_of_map. rewrite Hpos. reflexivity.
+Qed.
+
+Lemma geff_props_spec store nm : wf_map_core (keys store) nm = true ->
+  let ps := geff_props store nm in
+  NoDup (keys ps) /\
+  (forall k c, lookup k nm = Some (Single c) -> lookup k ps = lookup c store) /\
+  (forall k c0 cs, lookup k nm = Some (Multi (c0 :: cs)) -> lookup k ps = Some (comb_of store (c0 :: cs))) /\
+  (forall x, In x (keys ps) -> haskey x nm = true).
+Proof.
+  intros Hwf ps. pose proof (wf_map_core_inv _ _ Hwf) as [Hnd [Htime [[pcs [Hpos [Hlen Hell]]] [Hne Hsrc]]]].
+  destruct (clean_facts _ Hnd) as [Hk [Ht [Hmk Hkm]]].
+  set (ps0 := renamed store nm).
+  assert (P1 : NoDup (keys ps0)) by (unfold ps0; now rewrite keys_renamed).
+  assert (P2 : forall k c, In (k, c) (flatten nm) -> lookup k ps0 = lookup c store /\ In k (keys ps0)).
+  { intros k c Hin. unfold ps0. rewrite (lookup_renamed _ nm k c Ht Hin).
+    destruct (in_flatten_source _ _ Hin) as [k' [s [Hin' Hs]]]. cbn [snd] in Hs.
+    destruct (In_lookup_exists c store (Hsrc _ _ _ Hin' Hs)) as [p Hp]. unfold getd. rewrite Hp. split; [reflexivity|].
+    rewrite keys_renamed. unfold targets. apply in_map_iff. now exists (k, c). }
+  assert (Hsrc0 : forall k cs c, In (k, Multi cs) nm -> In c cs -> In c (keys ps0)).
+  { intros k cs c Hin Hc. apply (P2 c c). eapply in_flatten_multi; eauto. }
+  assert (L : forall x, lookup x ps = final_spec ps0 nm x) by (intros x; apply combine_multi_lookup; assumption).
+  assert (Hkeymc : forall x, In x (keys nm) -> memz x (multi_cols nm) = false) by (intros x Hx; apply memz_false; now apply Hkm).
+  split; [apply combine_multi_nodup; exact P1|]. split; [|split].
+  - intros k c Hl. rewrite L. unfold final_spec. rewrite Hl, (Hkeymc k (lookup_Some_keys _ _ _ Hl)).
+    apply P2. apply in_flatten_single. eapply lookup_In; eauto.
+  - intros k c0 cs Hl. rewrite L. unfold final_spec. rewrite Hl. f_equal. apply comb_of_ext. intros c Hc.
+    apply P2. eapply in_flatten_multi; [eapply lookup_In; exact Hl|exact Hc].
+  - intros x Hx.
+    assert (Hx' : lookup x ps <> None) by (intros E; apply lookup_None_keys in E; contradiction).
+    apply combine_multi_keys in Hx. destruct Hx as [Hx|Hx]; [|now apply haskey_keys].
+    unfold ps0 in Hx. rewrite keys_renamed in Hx. destruct (in_targets_inv _ _ Hx) as [[c Hc]|Hm].
+    + apply haskey_keys. unfold keys. apply in_map_iff. now exists (x, Single c).
+    + exfalso. apply Hx'. rewrite L. unfold final_spec.
+      assert (El : lookup x nm = None) by (apply lookup_None_keys; intros Hi; exact (Hkm x Hi Hm)).
+      rewrite El. apply memz_In in Hm. now rewrite Hm.
+Qed.
+
+Lemma width_fold_1 (ps : list pcol) : (forall p, In p ps -> width_of p = 1%nat) ->
+  forall w, fold_left (fun w q => (w + width_of q)%nat) ps w = (w + length ps)%nat.
+Proof.
+  induction ps as [|p ps IH]; intros H w; cbn; [lia|]. rewrite IH by (intros q Hq; apply H; now right).
+  rewrite (H p (or_introl eq_refl)). lia.
+Qed.
+Lemma width_comb_of store cs : (forall c, In c cs -> exists v m, lookup c store = Some {| p_vals := PS v; p_miss := m |}) ->
+  width_of (p_vals (comb_of store cs)) = length cs.
+Proof.
+  intros H. unfold comb_of. cbn [p_vals]. rewrite map_map.
+  assert (H1 : forall p, In p (map (fun c => p_vals (getd c store no_prop)) cs) -> width_of p = 1%nat).
+  { intros p Hp. apply in_map_iff in Hp. destruct Hp as [c [<- Hc]]. destruct (H c Hc) as [v [m E]]. unfold getd. now rewrite E. }
+  destruct cs as [|c0 cs]; [reflexivity|]. cbn [map column_stack width_of].
+  rewrite width_fold_1 by (intros p Hp; apply H1; now right). rewrite (H1 _ (or_introl eq_refl)). rewrite map_length. reflexivity.
+Qed.
+
+Lemma geff_props_spatial store nm pcs : wf_map_core (keys store) nm = true -> multi_1d store nm ->
+  lookup k_pos nm = Some (Multi pcs) -> spatial_props_ok (Some (S (length pcs))) (geff_props store nm) = true.
+Proof.
+  intros Hwf H1d Hpos. destruct (geff_props_spec store nm Hwf) as [Hnd [HS [HM HK]]].
+  pose proof (wf_map_core_inv _ _ Hwf) as [_ [_ [[pcs' [Hpos' [Hlen Hell]]] [Hne _]]]].
+  rewrite Hpos in Hpos'. injection Hpos' as <-.
+  unfold spatial_props_ok. apply forallb_forall. intros [x p] Hin. cbn [fst snd]. rewrite memz_sd.
+  replace (S (length pcs) - 1)%nat with (length pcs) by lia.
+  pose proof (In_lookup _ _ _ Hnd Hin) as Hl.
+  assert (Hw : forall k cs, lookup k nm = Some (Multi cs) -> lookup k (geff_props store nm) = Some p -> (2 <= length cs)%nat ->
+                 width_of (p_vals p) = length cs).
+  { intros k cs Hk Hp Hl2. destruct cs as [|c0 cs]; [cbn in Hl2; lia|]. rewrite (HM _ _ _ Hk) in Hp. injection Hp as <-.
+    apply width_comb_of. intros c Hc. apply H1d. eapply in_multi_cols; [eapply lookup_In; exact Hk|exact Hc]. }
+  destruct (Z.eqb_spec x k_pos) as [->|Hn1]; cbn [orb].
+  - apply Nat.eqb_eq. eapply Hw; eauto.
+  - destruct (Z.eqb_spec x k_ell) as [->|Hn2]; [|reflexivity].
+    pose proof (HK k_ell (lookup_Some_keys _ _ _ Hl)) as Hh. unfold haskey in Hh.
+    destruct (lookup k_ell nm) as [s|] eqn:El; [|discriminate]. destruct (Hell s eq_refl) as [cs [-> Hl2]].
+    apply Nat.eqb_eq. rewrite <- Hl2. eapply Hw; eauto. lia.
+Qed.
+
+Theorem geff_nodes_edges : forall ids es store trk lin nm,
+  wf_map_core (keys store) nm = true -> multi_1d store nm -> structure_ok ids es = true ->
+  exists g, import_geff ids es store trk lin nm = Ok g /\ map fst (g_nodes g) = ids /\ g_edges g = es.
+Proof.
+  intros ids es store trk lin nm Hwf H1d Hs. destruct (import_geff_wf_map ids es store trk lin nm Hwf) as [pcs [Hpos E]].
+  rewrite E. unfold finish. rewrite (geff_props_spatial store nm pcs Hwf H1d Hpos), Hs. cbn [negb].
+  eexists. split; [reflexivity|]. cbn [g_nodes g_edges construct]. split; [apply construct_nodes_fst|reflexivity].
+Qed.
+
+Theorem geff_values : forall ids es store trk lin nm g,
+  wf_map_core (keys store) nm = true -> import_geff ids es store trk lin nm = Ok g ->
+  forall i x, nth_error ids i = Some x ->
+  exists attrs, nth_error (g_nodes g) i = Some (x, attrs) /\
+    (forall k c p, lookup k nm = Some (Single c) -> lookup c store = Some p ->
+       (k = k_track -> trk = true) -> (k = k_lineage -> lin = true) -> lookup k attrs = value_at p i) /\
+    (forall k c0 cs, lookup k nm = Some (Multi (c0 :: cs)) ->
+       (k = k_track -> trk = true) -> (k = k_lineage -> lin = true) -> lookup k attrs = value_at (comb_of store (c0 :: cs)) i) /\
+    (forall k, In k (keys attrs) -> haskey k nm = true).
+Proof.
+  intros ids es store trk lin nm g Hwf Hg i x Hi. destruct (import_geff_wf_map ids es store trk lin nm Hwf) as [pcs [Hpos E]].
+  rewrite E in Hg. unfold finish in Hg. destruct (spatial_props_ok _ _); [|discriminate]. destruct (structure_ok ids es); [|discriminate].
+  cbn [negb] in Hg. injection Hg as <-. cbn [g_nodes construct].
+  destruct (geff_props_spec store nm Hwf) as [Hnd [HS [HM HK]]].
+  set (ps := drop_invalid trk lin (geff_props store nm)).
+  assert (Hndp : NoDup (keys ps)) by (now apply drop_invalid_nodup).
+  eexists. split; [now apply construct_nodes_nth|]. cbn [Nat.add]. split; [|split].
+  - intros k c p Hl Hc H3 H4. rewrite lookup_node_attrs by exact Hndp. unfold ps. rewrite drop_invalid_lookup by assumption.
+    now rewrite (HS k c Hl), Hc.
+  - intros k c0 cs Hl H3 H4. rewrite lookup_node_attrs by exact Hndp. unfold ps. rewrite drop_invalid_lookup by assumption.
+    now rewrite (HM k c0 cs Hl).
+  - intros k Hk. apply node_attrs_keys in Hk. unfold ps in Hk. apply drop_invalid_keys in Hk. now apply HK.
+Qed.
+
+(* a list-valued attribute: absent when any component is missing on the node, else the components in mapped order *)
+Definition miss_at (p : prop) (i : nat) : bool := match p_miss p with Some m => nth i m false | None => false end.
+Definition cell_at (p : prop) (i : nat) : cell := match p_vals p with PS v => nth i v CNone | PV _ v => hd CNone (nth i v []) end.
+
+Lemma hstack_length a : forall b, length a = length b -> length (hstack a b) = length a.
+Proof. induction a as [|x a IH]; intros [|y b] H; cbn in *; try lia. now rewrite IH by lia. Qed.
+Lemma nth_hstack a : forall b i, length a = length b -> (i < length a)%nat -> nth i (hstack a b) [] = nth i a [] ++ nth i b [].
+Proof.
+  induction a as [|x a IH]; intros [|y b] i H Hi; cbn in *; try lia. destruct i as [|i]; [reflexivity|]. apply IH; lia.
+Qed.
+Lemma orb_list_length a : forall b, length a = length b -> length (orb_list a b) = length a.
+Proof. induction a as [|x a IH]; intros [|y b] H; cbn in *; try lia. now rewrite IH by lia. Qed.
+Lemma nth_orb_list a : forall b i, length a = length b -> nth i (orb_list a b) false = nth i a false || nth i b false.
+Proof.
+  induction a as [|x a IH]; intros [|y b] i H; cbn in *; try lia; [now destruct i|]. destruct i as [|i]; [reflexivity|]. apply IH; lia.
+Qed.
+
+Lemma stack_rows_nth n i (ps : list prop) : (i < n)%nat ->
+  (forall p, In p ps -> exists v, p_vals p = PS v /\ length v = n) ->
+  forall acc, length acc = n ->
+  length (fold_left (fun a q => hstack a (rows_of q)) (map p_vals ps) acc) = n /\
+  nth i (fold_left (fun a q => hstack a (rows_of q)) (map p_vals ps) acc) [] = nth i acc [] ++ map (fun p => cell_at p i) ps.
+Proof.
+  intros Hi. induction ps as [|p ps IH]; intros H acc Hacc; cbn [map fold_left]; [now rewrite app_nil_r|].
+  destruct (H p (or_introl eq_refl)) as [v [Ev Hv]].
+  assert (Hr : length (rows_of (p_vals p)) = n) by (rewrite Ev; cbn; now rewrite map_length).
+  destruct (IH (fun q Hq => H q (or_intror Hq)) (hstack acc (rows_of (p_vals p)))) as [L N].
+  { rewrite hstack_length; lia. }
+  assert (En : nth i (rows_of (p_vals p)) [] = [cell_at p i]).
+  { unfold cell_at. rewrite Ev. cbn [rows_of]. rewrite nth_indep with (d' := [CNone]) by (rewrite map_length; lia).
+    change [CNone] with ((fun c : cell => [c]) CNone). now rewrite map_nth. }
+  split; [exact L|]. rewrite N, nth_hstack by lia. rewrite <- app_assoc, En. reflexivity.
+Qed.
+
+Lemma missing_fold_nth n i (ms : list (option (list bool))) :
+  (forall l, In (Some l) ms -> length l = n) ->
+  forall acc, length acc = n ->
+  length (fold_left (fun acc m => match m with Some l => orb_list acc l | None => acc end) ms acc) = n /\
+  nth i (fold_left (fun acc m => match m with Some l => orb_list acc l | None => acc end) ms acc) false
+  = nth i acc false || existsb (fun m => match m with Some l => nth i l false | None => false end) ms.
+Proof.
+  induction ms as [|m ms IH]; intros H acc Hacc; cbn [fold_left existsb]; [now rewrite orb_false_r|].
+  destruct m as [l|].
+  - destruct (IH (fun l' Hl' => H l' (or_intror Hl')) (orb_list acc l)) as [L N].
+    { rewrite orb_list_length; [exact Hacc|]. rewrite (H l (or_introl eq_refl)). exact Hacc. }
+    split; [exact L|]. rewrite N, nth_orb_list by (rewrite (H l (or_introl eq_refl)); exact Hacc). now rewrite orb_assoc.
+  - destruct (IH (fun l' Hl' => H l' (or_intror Hl')) acc Hacc) as [L N]. split; [exact L|]. rewrite N. reflexivity.
+Qed.
+
+Theorem geff_list_value : forall store n i c0 cs,
+  (i < n)%nat ->
+  (forall c, In c (c0 :: cs) -> exists v m, lookup c store = Some {| p_vals := PS v; p_miss := m |} /\ length v = n /\
+                                            (forall l, m = Some l -> length l = n)) ->
+  value_at (comb_of store (c0 :: cs)) i =
+    if existsb (fun c => miss_at (getd c store no_prop) i) (c0 :: cs) then None
+    else Some (VList (map (fun c => cell_at (getd c store no_prop) i) (c0 :: cs))).
+Proof.
+  intros store n i c0 cs Hi H. unfold comb_of.
+  set (srcs := map (fun c => getd c store no_prop) (c0 :: cs)).
+  assert (Hs : forall p, In p srcs -> exists v, p_vals p = PS v /\ length v = n).
+  { intros p Hp. unfold srcs in Hp. apply in_map_iff in Hp. destruct Hp as [c [<- Hc]].
+    destruct (H c Hc) as [v [m [E [Hv _]]]]. unfold getd. rewrite E. now exists v. }
+  assert (Hm : forall l, In (Some l) (map p_miss srcs) -> length l = n).
+  { intros l Hl. apply in_map_iff in Hl. destruct Hl as [p [Ep Hp]]. unfold srcs in Hp. apply in_map_iff in Hp.
+    destruct Hp as [c [<- Hc]]. destruct (H c Hc) as [v [m [E [_ Hml]]]]. unfold getd in Ep. rewrite E in Ep. cbn in Ep. now apply Hml. }
+  assert (Esr : srcs = getd c0 store no_prop :: map (fun c => getd c store no_prop) cs) by reflexivity.
+  destruct (Hs (getd c0 store no_prop)) as [v0 [Ev0 Hv0]]; [rewrite Esr; now left|].
+  assert (Hr0 : length (rows_of (p_vals (getd c0 store no_prop))) = n) by (rewrite Ev0; cbn; now rewrite map_length).
+  destruct (stack_rows_nth n i (map (fun c => getd c store no_prop) cs) Hi
+              (fun p Hp => Hs p (ltac:(rewrite Esr; now right))) _ Hr0) as [L N].
+  assert (Ecs : column_stack (map p_vals srcs)
+                = PV (fold_left (fun w q => (w + width_of q)%nat) (map p_vals (map (fun c => getd c store no_prop) cs)) (width_of (p_vals (getd c0 store no_prop))))
+                     (fold_left (fun a q => hstack a (rows_of q)) (map p_vals (map (fun c => getd c store no_prop) cs)) (rows_of (p_vals (getd c0 store no_prop)))))
+    by (rewrite Esr; reflexivity).
+  rewrite Ecs. cbn [rows_of]. rewrite L. unfold value_at. cbn [p_miss p_vals].
+  assert (Emiss : match combine_missing n (map p_miss srcs) with Some m => nth i m false | None => false end
+                  = existsb (fun c => miss_at (getd c store no_prop) i) (c0 :: cs)).
+  { assert (Eex : existsb (fun m => match m with Some l => nth i l false | None => false end) (map p_miss srcs)
+                  = existsb (fun c => miss_at (getd c store no_prop) i) (c0 :: cs)).
+    { unfold srcs. rewrite map_map. clear. induction (c0 :: cs) as [|c l IH]; [reflexivity|]. cbn [map existsb]. now rewrite IH. }
+    unfold combine_missing. destruct (existsb is_some (map p_miss srcs)) eqn:Ei.
+    - destruct (missing_fold_nth n i (map p_miss srcs) Hm (repeat false n) (repeat_length _ _)) as [_ Nm].
+      rewrite Nm, Eex. replace (nth i (repeat false n) false) with false; [reflexivity|].
+      symmetry. apply nth_repeat.
+    - rewrite <- Eex. symmetry. clear - Ei. induction (map p_miss srcs) as [|m l IH]; [reflexivity|]. cbn in *.
+      destruct m; [discriminate|]. cbn in Ei. now apply IH. }
+  rewrite Emiss. destruct (existsb _ (c0 :: cs)); [reflexivity|]. f_equal. f_equal. rewrite N.
+  cbn [map]. rewrite map_map.
+  assert (En : nth i (rows_of (PS v0)) [] = [cell_at (getd c0 store no_prop) i]).
+  { unfold cell_at. rewrite Ev0. cbn [rows_of]. rewrite nth_indep with (d' := [CNone]) by (rewrite map_length; lia).
+    change [CNone] with ((fun c : cell => [c]) CNone). now rewrite map_nth. }
+  rewrite <- Ev0 in En. rewrite En. reflexivity.
+Qed.
+
+(* rejection *)
+Lemma structure_ok_false ids es :
+  ~ NoDup ids \/ (exists u v, In (u, v) es /\ (~ In u ids \/ ~ In v ids)) \/ (exists u, In (u, u) es) \/ ~ NoDup es ->
+  structure_ok ids es = false.
+Proof.
+  intros H. destruct (structure_ok ids es) eqn:E; [|reflexivity]. exfalso.
+  unfold structure_ok in E. rewrite !andb_true_iff in E. destruct E as [[[E1 E2] E3] E4].
+  destruct H as [H|[[u [v [Hin H]]]|[[u Hin]|H]]].
+  - apply H. now apply nodup_z_NoDup.
+  - unfold edges_known in E2. rewrite forallb_forall in E2. specialize (E2 _ Hin). cbn [fst snd] in E2.
+    apply andb_true_iff in E2. destruct E2 as [Ea Eb]. apply memz_In in Ea. apply memz_In in Eb. tauto.
+  - unfold no_self_edges in E3. rewrite forallb_forall in E3. specialize (E3 _ Hin). cbn [fst snd] in E3. now rewrite Z.eqb_refl in E3.
+  - apply H. now apply nodup_pairs_NoDup.
+Qed.
+
+Theorem geff_reject_structure : forall ids es store trk lin nm,
+  wf_map_core (keys store) nm = true ->
+  (~ NoDup ids \/ (exists u v, In (u, v) es /\ (~ In u ids \/ ~ In v ids)) \/ (exists u, In (u, u) es) \/ ~ NoDup es) ->
+  import_geff ids es store trk lin nm = ValueErr.
+Proof.
+  intros ids es store trk lin nm Hwf H. destruct (import_geff_wf_map ids es store trk lin nm Hwf) as [pcs [_ E]]. rewrite E.
+  unfold finish. destruct (spatial_props_ok _ _); cbn [negb]; [|reflexivity]. now rewrite (structure_ok_false ids es H).
+Qed.
+
+(* whatever the name map, a structurally malformed graph is never imported *)
+Theorem geff_reject_structure_any_map : forall ids es store trk lin nm g,
+  (~ NoDup ids \/ (exists u v, In (u, v) es /\ (~ In u ids \/ ~ In v ids)) \/ (exists u, In (u, u) es) \/ ~ NoDup es) ->
+  import_geff ids es store trk lin nm <> Ok g.
+Proof.
+  intros ids es store trk lin nm g H. pose proof (structure_ok_false ids es H) as Hs.
+  unfold import_geff. destruct nm as [|kv nm']; [discriminate|]. unfold import_geff_body.
+  destruct (validate_name_map _ _ _ _); cbn [negb]; [|discriminate].
+  destruct (lookup k_pos (preprocess (kv :: nm'))) as [[c|cs]|]; try (destruct (lookup k_pos _); try discriminate);
+    unfold finish; destruct (spatial_props_ok _ _); cbn [negb]; try discriminate; rewrite Hs; discriminate.
+Qed.
+
+Lemma import_geff_invalid_map ids es store trk lin nm :
+  validate_name_map geff_required (keys store) (ndim_of_map nm) (preprocess nm) = false ->
+  import_geff ids es store trk lin nm = ValueErr.
+Proof. intros H. unfold import_geff. destruct nm; [reflexivity|]. unfold import_geff_body. now rewrite H. Qed.
+
+Theorem geff_reject_unmapped_time : forall ids es store trk lin nm,
+  lookup k_time nm = None -> import_geff ids es store trk lin nm = ValueErr.
+Proof.
+  intros. apply import_geff_invalid_map. apply validate_required_missing with (k := k_time); [now left|discriminate|assumption].
+Qed.
+Theorem geff_reject_unmapped_pos : forall ids es store trk lin nm,
+  lookup k_pos nm = None -> lookup k_z nm = None -> lookup k_y nm = None -> lookup k_x nm = None ->
+  import_geff ids es store trk lin nm = ValueErr.
+Proof. intros. apply import_geff_invalid_map. now apply validate_pos_missing. Qed.
+Theorem geff_reject_missing_prop : forall ids es store trk lin nm k s c,
+  haskey k_pos nm = true -> In (k, s) nm -> In c (sources s) -> keys store <> [] -> ~ In c (keys store) ->
+  import_geff ids es store trk lin nm = ValueErr.
+Proof. intros. apply import_geff_invalid_map. eapply validate_missing_column; eauto. Qed.
+
+(* the legacy z / y / x keys are turned into a composite pos *)
+Theorem legacy_pos_2d : forall (nm : name_map) cy cx,
+  lookup k_pos nm = None -> lookup k_z nm = None -> lookup k_y nm = Some (Single cy) -> lookup k_x nm = Some (Single cx) ->
+  legacy_pos nm = set k_pos (Multi [cy; cx]) (del k_x (del k_y nm)).
+Proof.
+  intros nm cy cx Hp Hz Hy Hx. unfold legacy_pos, haskey. rewrite Hp. cbn [fold_left]. unfold legacy_step. cbn [fst snd].
+  rewrite Hz. cbn [fst snd]. rewrite Hy. cbn [fst snd]. rewrite lookup_del_neq by discriminate. rewrite Hx. cbn [fst snd app length Nat.leb].
+  reflexivity.
+Qed.
+Theorem legacy_pos_3d : forall (nm : name_map) cz cy cx,
+  lookup k_pos nm = None -> lookup k_z nm = Some (Single cz) -> lookup k_y nm = Some (Single cy) -> lookup k_x nm = Some (Single cx) ->
+  legacy_pos nm = set k_pos (Multi [cz; cy; cx]) (del k_x (del k_y (del k_z nm))).
+Proof.
+  intros nm cz cy cx Hp Hz Hy Hx. unfold legacy_pos, haskey. rewrite Hp. cbn [fold_left]. unfold legacy_step. cbn [fst snd].
+  rewrite Hz. cbn [fst snd]. rewrite lookup_del_neq by discriminate. rewrite Hy. cbn [fst snd].
+  rewrite !lookup_del_neq by discriminate. rewrite Hx. cbn [fst snd app length Nat.leb]. reflexivity.
+Qed.
